@@ -135,7 +135,7 @@ def m2_reverse_rule(ctx) -> None:
                           construct=f"{m.qualname} refusal")
     # shape of the forward result: (parent object, None, ...)
     rets = [r for r in C.returns_of(fw.node) if r.value is not None]
-    if rets and all("None for _ in range(len(self.children) - 1)" in norm(r.value) for r in rets):
+    if rets and all("None for _ in range(len(self.children) - 1)" in norm(D.expanded(fw.node, r.value)) for r in rets):
         ctx.ok("M2", "ReverseRule.forward_map returns (object of the original parent, None, ...) with one slot per child")
     else:
         ctx.violation("M2", fw.node, "ReverseRule.forward_map must return the original parent's object followed by None for the other len(children)-1 children",
@@ -299,13 +299,14 @@ def m5_union_sub_objects(ctx) -> None:
         return
     inner = [l for l in outer.body if isinstance(l, ast.For)]
     pm = PT.find_all(outer, "_M_pm = self._children_param_maps[_M_i]", {"_M_i": i})
-    ok_map = bool(pm)
+    pm_txt = pm[0][1]["_M_pm"] if pm else f"self._children_param_maps[{i}]"
+    ok_map = True
     ok_call = bool(inner) and PT.match(PT.compile_pattern("_M_sub(n).items()"), inner[0].iter, {"_M_sub": sub}) is not None
     ok_set = ok_yield = False
     if inner and ok_call and ok_map and isinstance(inner[0].target, ast.Tuple):
         par, objs = norm(inner[0].target.elts[0]), norm(inner[0].target.elts[1])
         ok_set = bool(PT.find_all(inner[0], "_M_res[_M_i] = _M_objs", {"_M_res": res, "_M_i": i, "_M_objs": objs}))
-        ok_yield = bool(PT.find_all(inner[0], "(yield (_M_pm(_M_par), tuple(_M_res)))", {"_M_pm": pm[0][1]["_M_pm"], "_M_par": par, "_M_res": res}))
+        ok_yield = bool(PT.find_all(inner[0], "(yield (_E_pm(_M_par), tuple(_M_res)))", {"_E_pm": pm_txt, "_M_par": par, "_M_res": res}))
     # every entry of the child's level is yielded: nothing inside the inner loop can skip one
     if inner:
         ys = [y for y in walk_local(inner[0]) if isinstance(y, (ast.Yield, ast.YieldFrom))]
